@@ -733,4 +733,255 @@ theorem watchAll_spec (p : Obj → Bool) (ops : List COp) (cl : Cluster) :
     rw [this, ih]
     rfl
 
+/-! ### a `Snapshot()` call racing with the watch threads -/
+
+theorem drop_cons_step {α : Type} (l : List α) (h : Nat) (ev : α) (rest : List α)
+    (hd : l.drop h = ev :: rest) :
+    l.take (h + 1) = l.take h ++ [ev] ∧ l.drop (h + 1) = rest ∧ h < l.length := by
+  induction l generalizing h with
+  | nil => simp at hd
+  | cons a t ih =>
+    cases h with
+    | zero =>
+      simp only [List.drop_zero, List.cons.injEq] at hd
+      obtain ⟨rfl, rfl⟩ := hd
+      simp
+    | succ h =>
+      simp only [List.drop_succ_cons] at hd
+      obtain ⟨h1, h2, h3⟩ := ih h hd
+      refine ⟨?_, ?_, ?_⟩
+      · simp only [List.take_succ_cons, h1, List.cons_append]
+      · simpa using h2
+      · simp only [List.length_cons]; omega
+
+structure CInv (cfg : Cfg) (init : Nat → Cache) (evs : Nat → List WatchEv) (s : CState) : Prop where
+  caches : ∀ i, s.caches i = cacheAt cfg init evs i (s.handled i)
+  pending : ∀ i, s.pending i = (evs i).drop (s.handled i)
+  handled : ∀ i, s.handled i ≤ (evs i).length
+  acc : s.acc = ((List.range s.next).map (fun j => cacheAt cfg init evs j (s.cut j))).flatten
+  cut : ∀ j, j < s.next → s.cut j ≤ s.handled j
+  next : s.next ≤ s.n
+
+theorem cinv_init (cfg : Cfg) (init : Nat → Cache) (evs : Nat → List WatchEv) (n : Nat) :
+    CInv cfg init evs (cinit init evs n) :=
+  { caches := fun i => by simp [cinit, cacheAt]
+    pending := fun i => by simp [cinit]
+    handled := fun i => by simp [cinit]
+    acc := by simp [cinit]
+    cut := fun j hj => by simp [cinit] at hj
+    next := by simp [cinit] }
+
+theorem cstep_n (cfg : Cfg) (s : CState) (a : CAct) : (cstep cfg s a).n = s.n := by
+  cases a with
+  | w i =>
+    simp only [cstep]
+    cases s.pending i <;> rfl
+  | r =>
+    simp only [cstep]
+    split <;> rfl
+
+theorem cinv_step (cfg : Cfg) (init : Nat → Cache) (evs : Nat → List WatchEv) (s : CState) (a : CAct)
+    (h : CInv cfg init evs s) : CInv cfg init evs (cstep cfg s a) := by
+  cases a with
+  | w i =>
+    cases hp : s.pending i with
+    | nil => simpa [cstep, hp] using h
+    | cons ev rest =>
+      have hd : (evs i).drop (s.handled i) = ev :: rest := by rw [← h.pending i, hp]
+      obtain ⟨h1, h2, h3⟩ := drop_cons_step (evs i) (s.handled i) ev rest hd
+      simp only [cstep, hp]
+      exact
+      { caches := fun j => by
+          by_cases e : j = i
+          · subst e
+            simp only [if_true]
+            unfold cacheAt
+            rw [h1, List.foldl_append]
+            have := h.caches j
+            unfold cacheAt at this
+            rw [← this]; rfl
+          · simp only [e, if_false]; exact h.caches j
+        pending := fun j => by
+          by_cases e : j = i
+          · subst e; simp only [if_true]; exact h2.symm
+          · simp only [e, if_false]; exact h.pending j
+        handled := fun j => by
+          by_cases e : j = i
+          · subst e; simp only [if_true]; omega
+          · simp only [e, if_false]; exact h.handled j
+        acc := h.acc
+        cut := fun j hj => by
+          have := h.cut j hj
+          by_cases e : j = i
+          · subst e; simp only [if_true]; omega
+          · simp only [e, if_false]; exact this
+        next := h.next }
+  | r =>
+    by_cases hn : s.next < s.n
+    · simp only [cstep, hn, if_true]
+      exact
+      { caches := h.caches
+        pending := h.pending
+        handled := h.handled
+        acc := by
+          simp only [List.range_succ, List.map_append, List.flatten_append, List.map_cons, List.map_nil,
+            List.flatten_cons, List.flatten_nil, List.append_nil, if_true]
+          rw [h.acc, h.caches s.next]
+          congr 2
+          apply List.map_congr_left
+          intro j hj
+          have : j ≠ s.next := by
+            have := List.mem_range.1 hj
+            omega
+          simp [this]
+        cut := fun j hj => by
+          have hj' : j < s.next + 1 := hj
+          by_cases e : j = s.next
+          · subst e; simp
+          · simp only [e, if_false]
+            exact h.cut j (by omega)
+        next := by show s.next + 1 ≤ s.n; omega }
+    · simpa [cstep, hn] using h
+
+theorem cinv_run (cfg : Cfg) (init : Nat → Cache) (evs : Nat → List WatchEv) (sched : List CAct)
+    (s : CState) (h : CInv cfg init evs s) :
+    CInv cfg init evs (crun cfg s sched) ∧ (crun cfg s sched).n = s.n := by
+  unfold crun
+  induction sched generalizing s with
+  | nil => exact ⟨h, rfl⟩
+  | cons a t ih =>
+    obtain ⟨h3, h4⟩ := ih _ (cinv_step cfg init evs s a h)
+    exact ⟨h3, h4.trans (cstep_n cfg s a)⟩
+
+/-! ### the driver's insertion sort meets `SortContract` -/
+
+theorem lessKey_iff (kf : Bool) (ridOf : Key → Nat) (a b : Key) :
+    lessKey kf ridOf a b = true ↔
+      (kf = false ∧ ridOf a < ridOf b) ∨ (kf = true ∧ (a.ns < b.ns ∨ (a.ns = b.ns ∧ a.name < b.name))) := by
+  unfold lessKey
+  cases kf with
+  | false => simp
+  | true =>
+    simp only [Bool.not_true, Bool.false_eq_true, if_false]
+    constructor
+    · intro h
+      right
+      refine ⟨trivial, ?_⟩
+      by_cases h1 : a.ns < b.ns
+      · exact Or.inl h1
+      · by_cases h2 : a.ns > b.ns
+        · simp [h1, h2] at h
+        · simp only [h1, h2, if_false, decide_eq_true_eq] at h
+          exact Or.inr ⟨by omega, h⟩
+    · rintro (⟨k, _⟩ | ⟨_, h | ⟨h1, h2⟩⟩)
+      · cases k
+      · simp [h]
+      · have e1 : ¬ a.ns < b.ns := by omega
+        have e2 : ¬ a.ns > b.ns := by omega
+        simp [e1, e2, h2]
+
+theorem lessKey_trans (kf : Bool) (ridOf : Key → Nat) (a b c : Key)
+    (h1 : lessKey kf ridOf a b = true) (h2 : lessKey kf ridOf b c = true) : lessKey kf ridOf a c = true := by
+  rw [lessKey_iff] at *
+  rcases h1 with ⟨k1, h1⟩ | ⟨k1, h1⟩ <;> rcases h2 with ⟨k2, h2⟩ | ⟨k2, h2⟩
+  · exact Or.inl ⟨k1, by omega⟩
+  · rw [k1] at k2; cases k2
+  · rw [k1] at k2; cases k2
+  · exact Or.inr ⟨k1, by omega⟩
+
+theorem lessKey_asymm (kf : Bool) (ridOf : Key → Nat) (a b : Key)
+    (h1 : lessKey kf ridOf a b = true) : lessKey kf ridOf b a = false := by
+  cases h : lessKey kf ridOf b a with
+  | false => rfl
+  | true =>
+    rw [lessKey_iff] at h1 h
+    rcases h1 with ⟨k1, h1⟩ | ⟨k1, h1⟩ <;> rcases h with ⟨k2, h2⟩ | ⟨k2, h2⟩
+    · omega
+    · rw [k1] at k2; cases k2
+    · rw [k1] at k2; cases k2
+    · omega
+
+theorem insertBy_perm (lt : Entry → Entry → Bool) (a : Entry) (l : List Entry) :
+    (insertBy lt a l).Perm (a :: l) := by
+  induction l with
+  | nil => exact List.Perm.refl _
+  | cons b t ih =>
+    unfold insertBy
+    split
+    · exact List.Perm.refl _
+    · exact (List.Perm.cons b ih).trans (List.Perm.swap a b t)
+
+theorem foldr_insertBy_perm (lt : Entry → Entry → Bool) (l : List Entry) :
+    (l.foldr (insertBy lt) []).Perm l := by
+  induction l with
+  | nil => exact List.Perm.refl _
+  | cons a t ih => exact (insertBy_perm lt a _).trans (List.Perm.cons a ih)
+
+/-- inserting into a sorted list keeps it sorted when `lt` is transitive and asymmetric on the
+elements involved (`P`) -/
+theorem insertBy_sorted (lt : Entry → Entry → Bool) (P : Entry → Prop)
+    (htrans : ∀ x y z, P x → P y → P z → lt x y = true → lt y z = true → lt x z = true)
+    (hasym : ∀ x y, P x → P y → lt x y = true → lt y x = false)
+    (a : Entry) (l : List Entry) (ha : P a) (hl : ∀ x ∈ l, P x)
+    (hs : l.Pairwise (fun x y => lt y x = false)) :
+    (insertBy lt a l).Pairwise (fun x y => lt y x = false) := by
+  induction l with
+  | nil => simp [insertBy]
+  | cons b t ih =>
+    have hb : P b := hl b List.mem_cons_self
+    have ht : ∀ x ∈ t, P x := fun x hx => hl x (List.mem_cons_of_mem _ hx)
+    rw [List.pairwise_cons] at hs
+    unfold insertBy
+    by_cases hab : lt a b = true
+    · rw [if_pos hab]
+      refine List.pairwise_cons.2 ⟨?_, List.pairwise_cons.2 hs⟩
+      intro y hy
+      rcases List.mem_cons.1 hy with rfl | hy
+      · exact hasym a _ ha hb hab
+      · cases hya : lt y a with
+        | false => rfl
+        | true =>
+          have := htrans y a b (ht y hy) ha hb hya hab
+          rw [hs.1 y hy] at this
+          cases this
+    · rw [if_neg hab]
+      refine List.pairwise_cons.2 ⟨?_, ih ht hs.2⟩
+      intro y hy
+      have := (insertBy_perm lt a t).subset hy
+      rcases List.mem_cons.1 this with rfl | hy'
+      · simpa using hab
+      · exact hs.1 y hy'
+
+theorem modelSort_contract (ridOf : Key → Nat) : SortContract ridOf (modelSort ridOf) := by
+  intro l hu
+  refine ⟨foldr_insertBy_perm _ l, ?_⟩
+  cases l with
+  | nil => simp [modelSort]
+  | cons e0 t0 =>
+    let kf := e0.obj.isSome
+    have hP : ∀ x ∈ e0 :: t0, x.obj.isSome = kf := fun x hx => hu x hx e0 List.mem_cons_self
+    generalize e0 :: t0 = l at hP
+    unfold modelSort
+    have htrans : ∀ x y z : Entry, x.obj.isSome = kf → y.obj.isSome = kf → z.obj.isSome = kf →
+        lessGo ridOf x y = true → lessGo ridOf y z = true → lessGo ridOf x z = true := by
+      intro x y z hx hy hz h1 h2
+      rw [lessGo_eq_lessKey ridOf kf _ _ hx hy] at h1
+      rw [lessGo_eq_lessKey ridOf kf _ _ hy hz] at h2
+      rw [lessGo_eq_lessKey ridOf kf _ _ hx hz]
+      exact lessKey_trans kf ridOf _ _ _ h1 h2
+    have hasym : ∀ x y : Entry, x.obj.isSome = kf → y.obj.isSome = kf →
+        lessGo ridOf x y = true → lessGo ridOf y x = false := by
+      intro x y hx hy h1
+      rw [lessGo_eq_lessKey ridOf kf _ _ hx hy] at h1
+      rw [lessGo_eq_lessKey ridOf kf _ _ hy hx]
+      exact lessKey_asymm kf ridOf _ _ h1
+    induction l with
+    | nil => simp
+    | cons a t ih =>
+      have ht : ∀ x ∈ t, x.obj.isSome = kf := fun x hx => hP x (List.mem_cons_of_mem _ hx)
+      simp only [List.foldr_cons]
+      refine insertBy_sorted _ (fun x => x.obj.isSome = kf) htrans hasym a _ (hP a List.mem_cons_self) ?_ (ih ht)
+      intro x hx
+      exact ht x ((foldr_insertBy_perm _ t).subset hx)
+
 end ShellOp.Snapshot
